@@ -30,7 +30,7 @@ COMPONENTS = {
 }
 ASSUMPTIONS = ["the fake implements the subset of dbutils.fs dds calls (head raises on a missing file, put(overwrite=True) replaces); "
                "fidelity to Databricks is trusted, not checked", "Spark codecs are not exercised"]
-PROBES = ["commit:full", "commit:links_only", "commit:none", "commit:default", "rekeep", "commit_type_switch", "legacy_blob",
+PROBES = ["alias_paths_one_blob", "commit:full", "commit:links_only", "commit:none", "commit:default", "rekeep", "commit_type_switch", "legacy_blob",
           "legacy_blob_committed:full", "legacy_blob_committed:links_only", "legacy_blob_committed:none",
           "load_checked", "files_checked"]
 SPELL = {"full": ["full", "FULL", "Full"], "links_only": ["links_only", "LINKS_ONLY", "Links_Only"],
@@ -51,10 +51,13 @@ def gen_case(streams, tier, avoid):
     n = cfg.randint(2, 12)
     for _ in range(n):
         r = rng.random()
-        if r < 0.55:
+        if r < 0.1:
+            # one evaluation keeping one result (one blob key) under two or three paths
+            ops.append(["alias", rng.choice(["alias0", "alias1", "alias2"])])
+        elif r < 0.55:
             ops.append(["keep", rng.choice(PATHS), rng.choice(KINDS), rng.randint(0, 5)])
         elif r < 0.9:
-            ops.append(["load", rng.choice(PATHS)])
+            ops.append(["load", rng.choice(PATHS + ["/al/x", "/al/y", "/am/z"])])
         else:
             ct2 = rng.choice(["full", "links_only", "none"])
             used = {o[1] for o in ops if o[0] == "config"}
@@ -121,7 +124,46 @@ def _run_api(case, root):
                 break
             akey.append(["config", op[1]])
             continue
-        if k == "keep":
+        if k == "alias":
+            fn = op[1]
+            spec = af.ALIASES[fn]
+            probe("alias_paths_one_blob")
+            try:
+                got = dds.eval(getattr(af, fn))
+            except BaseException as e:  # noqa
+                violations.append({"oracle": "C19.value", "tags": ["commit:" + ct, "alias"],
+                                   "detail": f"step {step} eval {fn} under {ct}: raised {type(e).__name__}: {str(e)[:200]}"})
+                break
+            expv = tuple(af.make_val(kd, n) for (_, kd, n) in spec)
+            if canon(got) != canon(expv):
+                violations.append({"oracle": "C19.value", "tags": ["commit:" + ct, "alias"],
+                                   "detail": f"step {step} eval {fn} under {ct}: returned {canon(got)[:80]} expected {canon(expv)[:80]}"})
+            for (path, kd, n) in spec:
+                exp = af.make_val(kd, n)
+                if ct in ("full", "links_only"):
+                    if path in table and canon(table[path]) != canon(exp):
+                        probe("rekeep")
+                        nontrivial = True
+                    table[path] = exp
+                rel = path.lstrip("/")
+                rec_p = os.path.join(data, "_dds_meta", rel)
+                obj_p = os.path.join(data, rel)
+                if ct in ("full", "links_only") and not os.path.isfile(rec_p):
+                    violations.append({"oracle": "C19.files", "tags": ["commit:" + ct, "alias"],
+                                       "detail": f"step {step} eval {fn} under {ct}: no redirect record at <data>/_dds_meta/{rel}"})
+                if ct == "full":
+                    if not os.path.isfile(obj_p):
+                        violations.append({"oracle": "C19.files", "tags": ["commit:full", "alias"],
+                                           "detail": f"step {step} eval {fn} under full: no copy at <data>/{rel}"})
+                    else:
+                        raw = open(obj_p, "rb").read()
+                        bb = _blob_bytes(exp)
+                        if not ((raw == bb) if bb is not None else (pickle.loads(raw) == exp)):
+                            violations.append({"oracle": "C19.files", "tags": ["commit:full", "alias"],
+                                               "detail": f"step {step} eval {fn} under full: copy at <data>/{rel} is not the kept value"})
+            log.append([step, op, canon(got)[:60]])
+            akey.append(["alias", fn, ct])
+        elif k == "keep":
             _, path, kind, n = op
             exp = af.make_val(kind, n)
             try:
@@ -289,6 +331,8 @@ def tags(case):
     seen = []
     for op in case["ops"]:
         t.add("op:" + op[0])
+        if op[0] == "alias":
+            t.add("op:keep")       # an evaluation made of dds.keep calls
         if op[0] == "config":
             c = "full" if op[1] == "default" else op[1]
             for prev in seen:
